@@ -224,6 +224,21 @@ func TestVerif(t *testing.T) {
 				r.Sample(c)
 			}
 		})
+		c15AllVersionCases(r, func(c c15Case) {
+			kidx++
+			if !r.Mine(kidx) || r.Expired() {
+				return
+			}
+			k, d := runC15(t, c)
+			r.Eval(1)
+			r.Traces(1)
+			r.Nontrivial(1)
+			r.Class(fmt.Sprintf("proto:%d", c.Protocol))
+			r.Class("all-versions")
+			if k != "" {
+				r.Violation(k, fmt.Sprintf("%+v\n%s", c, d), c)
+			}
+		})
 		protos := []proto.Protocol{version.Minecraft_1_8.Protocol, version.Minecraft_1_12_2.Protocol, version.Minecraft_1_20_3.Protocol, version.Minecraft_1_21_4.Protocol, version.MaximumVersion.Protocol}
 		ths := []int{-1, 0, 64, 256}
 		idx := 0
